@@ -1812,7 +1812,12 @@ class Compiler:
     def visit_UseExternalMacro(self, node):
         self._macros.append(node.extend)
 
-        callbacks = []
+        # The macro runs on a copy of the variable scope; the slot
+        # fillers are handed over in that copy (in the scope of the
+        # caller, a filler which the macro does not use would be found
+        # by the next macro).
+        scope = identifier("__scope", id(node))
+        callbacks = template("SCOPE = econtext.copy()", SCOPE=scope)
         for slot in node.slots:
             key = "__slot_%s" % mangle(slot.name)
             fun = "__fill_%s" % mangle(slot.name)
@@ -1864,7 +1869,8 @@ class Compiler:
             key = ast.Constant(key)
 
             assignment = template(
-                "_slots = econtext[KEY] = DEQUE((NAME,))",
+                "_slots = SCOPE[KEY] = DEQUE((NAME,))",
+                SCOPE=scope,
                 KEY=key, NAME=fun, DEQUE=Symbol(collections.deque),
             )
 
@@ -1890,8 +1896,9 @@ class Compiler:
             [TokenRef(node.expression.value)] +
             template("__m = __macro.include") +
             self._merge_globals(node, template(
-                "__m(__stream, econtext.copy(), "
-                "rcontext, __i18n_domain, __i18n_context, target_language)"
+                "__m(__stream, SCOPE, "
+                "rcontext, __i18n_domain, __i18n_context, target_language)",
+                SCOPE=scope,
             ))
         )
 
